@@ -41,6 +41,25 @@ fn corpus() -> Vec<Value> {
         cplx(&[], &[uiua::Complex::new(2.0, nan)]),
         cplx(&[], &[uiua::Complex::new(nan, nan)]),
         cplx(&[], &[uiua::Complex::new(1.0, 5.0)]),
+        // equal values that differ in the sign of a zero part or in the NaN they carry
+        cplx(&[], &[uiua::Complex::new(1.0, 0.0)]),
+        cplx(&[], &[uiua::Complex::new(1.0, -0.0)]),
+        cplx(&[], &[uiua::Complex::new(0.0, 1.0)]),
+        cplx(&[], &[uiua::Complex::new(-0.0, 1.0)]),
+        cplx(&[], &[uiua::Complex::new(0.0, 0.0)]),
+        cplx(&[], &[uiua::Complex::new(-0.0, -0.0)]),
+        cplx(&[2], &[uiua::Complex::new(0.0, -0.0), uiua::Complex::new(-0.0, 2.0)]),
+        cplx(&[2], &[uiua::Complex::new(-0.0, 0.0), uiua::Complex::new(0.0, 2.0)]),
+        cplx(&[], &[uiua::Complex::new(f64::from_bits(0x7ff8_0000_0000_0005), 1.0)]),
+        cplx(&[], &[uiua::Complex::new(-nan, 1.0)]),
+        num(&[], &[f64::from_bits(0x7ff8_0000_0000_0005)]),
+        num(&[], &[-nan]),
+        num(&[2], &[0.0, -0.0]),
+        num(&[2], &[-0.0, 0.0]),
+        boxes(&[], vec![cplx(&[], &[uiua::Complex::new(1.0, -0.0)])]),
+        boxes(&[], vec![cplx(&[], &[uiua::Complex::new(1.0, 0.0)])]),
+        boxes(&[], vec![num(&[], &[-0.0])]),
+        boxes(&[], vec![byte(&[], &[0])]),
         num(&[], &[nan]),
         num(&[], &[0.0]),
         num(&[], &[-0.0]),
